@@ -21,13 +21,14 @@ var (
 )
 
 func checkC17(p *core.Prog, r *core.Report) {
-	r.Explanation = "Decides structural necessary conditions of exact counts and reclamation: (R1) in every engine function, on every path and inside each shard-mutex section, LockedCount moves iff the key's depth moves and in the same direction; WaitCount++ pairs with AddWaitLock; WaitCount-- happens at most once per path and exactly on the paths where a queued request leaves the queue (grant in wakeUpWaitLock, waiter arm of doTimeOut / cancelWaitLock), helpers inlined; (R2) at every reply the LCount argument is uint16(<*LockManager>.locked) or constant 0 and LRCount is <*Lock>.locked or 0; (R3) in the request-path functions the reference count of a lock is raised exactly for its wheel insertions and ack registrations (no missing and no surplus reference); (R4) every Lock.refCount decrement is followed on its path by the zero test that guards FreeLock (tabled exceptions: RemoveLock, RemoveLongTimeOut, RemoveLongExpried, whose callers test); (R5) RemoveLockManager clears the value and resets the queues before the manager is recycled and decrements KeyCount once. NOT decided: numeric exactness of the magnitudes, drain to zero, unreachability of freed objects."
+	r.Explanation = "Decides structural necessary conditions of exact counts and reclamation: (R1) in every engine function, on every path and inside each shard-mutex section, LockedCount moves iff the key's depth moves and in the same direction; WaitCount++ pairs with AddWaitLock; WaitCount-- happens at most once per path and exactly on the paths where a queued request leaves the queue (grant in wakeUpWaitLock, waiter arm of doTimeOut / cancelWaitLock), helpers inlined; (R2) at every reply the LCount argument is uint16(<*LockManager>.locked) or constant 0 and LRCount is <*Lock>.locked or 0; (R3) in the request-path functions the reference count of a lock is raised exactly for its wheel insertions and ack registrations (no missing and no surplus reference); (R4) every Lock.refCount decrement is followed on its path by the zero test that guards FreeLock (tabled exceptions: RemoveLock, RemoveLongTimeOut, RemoveLongExpried, whose callers test); (R5) RemoveLockManager clears the value and resets the queues before the manager is recycled and decrements KeyCount once. (R6) the compaction loops of the per-key holder and wait queues return the queue's reference for every entry they drop. NOT decided: numeric exactness of the magnitudes, drain to zero, unreachability of freed objects."
 	r.Assumptions = []string{"Go type checker, go/ssa and VTA call graph are correct for /repo", "counters are only compared by direction and pairing, not magnitude"}
 	c17R1(p, r)
 	c17R2(p, r)
 	c17R3(p, r)
 	c17R4(p, r)
 	c17R5(p, r)
+	c17R6(p, r)
 }
 
 var c17Engine = []string{
@@ -569,3 +570,115 @@ func c17R5(p *core.Prog, r *core.Report) {
 }
 
 var _ = types.Typ
+
+// c17R6: the per-key holder and wait queues own one reference on every entry.
+// Their Push compacts the fast slice when it is full: live entries are moved
+// down, finished ones (released holds / answered waiters) are dropped. Every
+// dropped entry must give its reference back (refCount-- followed by R4's zero
+// test), otherwise the lock object - and with it the key's manager - is never
+// reclaimed. Per iteration of the compaction loop: a non-nil element is either
+// kept (stored back into the slice, or counted by the keep index) or its
+// refCount is decremented.
+func c17R6(p *core.Prog, r *core.Report) {
+	const rule = "C17/R6"
+	r.Rule(rule, "queue compaction: every non-nil entry visited is either kept in the slice or has its refCount decremented (dropped entries return the queue's reference)", 2)
+	for _, name := range []string{"server.(*LockManagerWaitQueue).Push", "server.(*LockManagerLockQueue).Push"} {
+		fn := mustFunc(p, r, name)
+		if fn == nil {
+			continue
+		}
+		recv := recvName(fn)
+		visited := 0
+		check := func(x *core.X, where string) {
+			e := x.Get("elem")
+			if e == "" {
+				return
+			}
+			x.Set("elem", "")
+			visited++
+			key := name + ": compaction entry"
+			switch {
+			case x.Get("nn") == "0":
+				r.Hold(rule, key, x.Get("epos"), "empty slot")
+			case x.Get("kept") == "1" || x.Get("dec") == "1":
+				r.Hold(rule, key, x.Get("epos"), "kept or reference returned")
+			default:
+				r.Violate(rule, key, x.Get("epos"), "an entry is dropped from the queue ("+where+") without decrementing its refCount: the lock object keeps the queue's reference for ever, is never returned to the pool and its key is never reclaimed", x.St.Trace)
+			}
+		}
+		ex := core.NewExplorer(p, core.Hooks{
+			Inline: func(x *core.X, c *ssa.Function) bool {
+				return core.InModule(c) && recvName(c) == recv && c.Name() != "Push"
+			},
+			Track: func(x *core.X, a core.Atom) bool {
+				e := x.Get("elem")
+				return e != "" && (core.Plain(a.L) == core.Plain(e) && a.R == "nil")
+			},
+			Branch: func(x *core.X, a core.Atom) {
+				e := x.Get("elem")
+				if e != "" && core.Plain(a.L) == core.Plain(e) && a.R == "nil" {
+					if a.Op == "!=" {
+						x.Set("nn", "1")
+					} else {
+						x.Set("nn", "0")
+					}
+				}
+			},
+			Instr: func(x *core.X) {
+				switch t := x.Ins.(type) {
+				case *ssa.UnOp:
+					ia, ok := t.X.(*ssa.IndexAddr)
+					if !ok || !blockInLoop(t.Block()) {
+						return
+					}
+					if !strings.HasSuffix(core.Plain(x.Canon(ia.X).S), ".fastQueue") {
+						return
+					}
+					check(x, "next iteration")
+					x.Set("elem", x.Canon(t).S)
+					x.Set("epos", x.Pos())
+					x.Set("idx", ia.Index.Name())
+					x.Set("kept", "")
+					x.Set("dec", "")
+					x.Set("nn", "")
+				case *ssa.Store:
+					e := x.Get("elem")
+					if e == "" {
+						return
+					}
+					if ia, ok := t.Addr.(*ssa.IndexAddr); ok && strings.HasSuffix(core.Plain(x.Canon(ia.X).S), ".fastQueue") {
+						if core.Plain(x.Canon(t.Val).S) == core.Plain(e) {
+							x.Set("kept", "1")
+						}
+						return
+					}
+					if k, ok := storeKey(t.Addr); ok && k == lkRef && signOf(t) == "-" {
+						base := core.Plain(strings.TrimSuffix(strings.TrimPrefix(x.Canon(t.Addr).S, "&"), ".refCount"))
+						if base == core.Plain(e) {
+							x.Set("dec", "1")
+						}
+					}
+				case *ssa.BinOp:
+					// keep index advanced: an integer phi other than the scan index is incremented
+					if x.Get("elem") == "" || t.Op.String() != "+" {
+						return
+					}
+					if c, ok := t.Y.(*ssa.Const); ok && c.Value != nil && c.Value.ExactString() == "1" {
+						if ph, ok := t.X.(*ssa.Phi); ok && ph.Name() != x.Get("idx") && x.Fr.Fn == t.Parent() {
+							x.Set("kept", "1")
+						}
+					}
+				}
+			},
+			Exit: func(x *core.X, rets []core.Expr) { check(x, "loop exit") },
+		})
+		ex.NoHist = true
+		ex.Run(fn, nil)
+		if ex.Imprecise != "" {
+			r.Fail("C17/R6 %s: %s", name, ex.Imprecise)
+		}
+		if visited == 0 {
+			r.Violate(rule, name+": compaction entry", p.Pos(fn.Pos()), "no compaction loop over the fast slice found", nil)
+		}
+	}
+}
